@@ -326,7 +326,14 @@ impl<S: Snd, R: Rcv> World<S, R> {
         // the operation that released the storage has returned: from here on nobody may write it
         if self.released_now.replace(false) {
             if let Some((addr, len)) = self.embedded.get() {
-                // SAFETY: the harness owns this storage until the end of the case.
+                // The event is gone and the container is plain uninitialised storage that belongs
+                // to its owner (the harness) again: the owner scribbles over it, as a caller that
+                // reuses the place would. A later *read* of the event by either endpoint (possibly
+                // one still on the stack above this nested operation) now decodes an impossible
+                // state instead of going unnoticed; a later write shows up against the snapshot.
+                // SAFETY: the harness owns this storage until the end of the case; nothing lives in it.
+                unsafe { std::ptr::write_bytes(addr as *mut u8, 0xDD, len) };
+                // SAFETY: as above.
                 let bytes = unsafe { std::slice::from_raw_parts(addr as *const u8, len) }.to_vec();
                 self.log.borrow_mut().snapshot = Some(bytes);
             }
